@@ -25,6 +25,7 @@
 #include "SimTKcommon.h"
 #include <atomic>
 #include <thread>
+#include <memory>
 #include <cstdarg>
 #include <dirent.h>
 #include <dlfcn.h>
@@ -32,6 +33,7 @@
 #include <sched.h>
 #include <spawn.h>
 #include <sys/wait.h>
+#include <sys/syscall.h>
 using namespace SimTK;
 
 #if defined(__SANITIZE_THREAD__)
@@ -58,7 +60,7 @@ struct Rule { int site, mod, res, action, mag; };
 struct Sched { uint32_t seed = 0; int density = 0; int stride = 1; std::vector<Rule> rules; };   // stride: thins per-invocation injections for large task counts
 Sched g_sched;                              // written by the main thread before the library is entered
 std::atomic<long> g_injected{0}, g_sleepBudget{0};
-volatile unsigned g_sink;
+std::atomic<unsigned> g_sink{0};
 
 inline uint32_t mix(uint32_t a, uint32_t b, uint32_t c) {
     uint64_t h = 0x9E3779B97F4A7C15ull ^ a; h = (h ^ b) * 0xff51afd7ed558ccdULL; h ^= h >> 33;
@@ -67,7 +69,7 @@ inline uint32_t mix(uint32_t a, uint32_t b, uint32_t c) {
 void doAction(int action, int mag) {
     switch (action) {
         case 1: for (int k = 0; k < mag; ++k) sched_yield(); break;
-        case 2: { unsigned s = 0; for (int k = 0; k < mag * 400; ++k) s += k; g_sink = s; } break;
+        case 2: { unsigned s = 0; for (int k = 0; k < mag * 400; ++k) s += k; g_sink.store(s, RLX); } break;
         case 3: if (g_sleepBudget.fetch_sub(1, RLX) > 0) usleep(20 * mag); else sched_yield(); break;
         default: return;
     }
@@ -102,6 +104,13 @@ std::atomic<long> g_parked{0}, g_events{0}, g_epoch{0};
 const char* g_op = "";                       // what the main thread is doing (for messages)
 uint64_t g_curHash = 0;
 #if !C33_TSAN
+// Threads that exist before the first case (the BLAS pool of the library's dependencies) also sleep in pthread_cond_wait;
+// they never take part in the executors' protocol and are left out of the parked-thread accounting (by thread id).
+pid_t g_baseTid[128]; int g_nBaseTid = 0; thread_local int tl_counted = 0;   // 0 unknown, 1 counted (main or created later), 2 baseline
+inline bool counted() {
+    if (tl_counted == 0) { tl_counted = 1; if (!tl_isMain) { pid_t me = (pid_t)syscall(SYS_gettid); for (int i = 0; i < g_nBaseTid; ++i) if (g_baseTid[i] == me) tl_counted = 2; } }
+    return tl_counted == 1;
+}
 typedef int (*cw_t)(pthread_cond_t*, pthread_mutex_t*); typedef int (*cs_t)(pthread_cond_t*); typedef int (*pj_t)(pthread_t, void**);
 cw_t real_cw; cs_t real_cs, real_cb; pj_t real_pj;
 void resolveReal() {
@@ -116,7 +125,7 @@ void resolveReal() {
 #if !C33_TSAN
 extern "C" int pthread_cond_wait(pthread_cond_t* c, pthread_mutex_t* m) {
     if (!real_cw) resolveReal();
-    if (!g_active.load(RLX)) return real_cw(c, m);
+    if (!g_active.load(RLX) || !counted()) return real_cw(c, m);
     perturb(5, tl_hookKey++);
     g_events.fetch_add(1, RLX); g_parked.fetch_add(1, RLX);
     int r = real_cw(c, m);
@@ -150,7 +159,11 @@ extern "C" int pthread_join(pthread_t th, void** ret) {
 namespace {
 #if !C33_TSAN
 int g_baseTasks = 1;   // threads existing before the first case (main + e.g. the BLAS pool), never involved in the executors' protocol
-int countTasks() { int n = 0; if (DIR* d = opendir("/proc/self/task")) { while (dirent* e = readdir(d)) if (e->d_name[0] != '.') ++n; closedir(d); } return n; }
+int countTasks(bool record = false) {
+    int n = 0; if (record) g_nBaseTid = 0;
+    if (DIR* d = opendir("/proc/self/task")) { while (dirent* e = readdir(d)) if (e->d_name[0] != '.') { ++n; if (record && g_nBaseTid < 128) g_baseTid[g_nBaseTid++] = (pid_t)atol(e->d_name); } closedir(d); }
+    return n;
+}
 // Deadlock monitor: a violation is reported only when EVERY thread of the process other than this monitor is inside
 // pthread_cond_wait / pthread_join (so nobody is left who could ever signal) while the main thread is inside a library
 // call, and no thread entered or left a wait and nothing was signalled for 5 s (margin for wake-ups in flight).
@@ -164,6 +177,7 @@ void monitorBody() {
         stableMs += 50;
         if (stableMs >= 5000 && stableMs % 500 == 0) {
             long parked = g_parked.load(RLX); int n = countTasks();
+            if (const char* dbg = getenv("C33_DEBUG")) { FILE* f = fopen(dbg, "a"); if (f) { fprintf(f, "monitor: stable %d ms, parked=%ld tasks=%d base=%d events=%ld now=%ld\n", stableMs, parked, n, g_baseTasks, ev, g_events.load(RLX)); fclose(f); } }
             if (parked >= 1 && parked == n - g_baseTasks && g_events.load(RLX) == ev) {   // n - baseline(incl. main) - monitor + main
                 std::string dir = pbt::verifDir() + "/replays/C33"; mkdir((pbt::verifDir() + "/replays").c_str(), 0755); mkdir(dir.c_str(), 0755);
                 char p[600]; snprintf(p, sizeof p, "%s/fail-deadlock-%016llx.tape", dir.c_str(), (unsigned long long)g_curHash);
@@ -185,8 +199,9 @@ struct LibCall {   // scope guard around a call into the library made by the mai
 struct Per { int inits = 0, fins = 0; long execs = 0, localSum = 0; };
 
 struct PexTask : ParallelExecutor::Task {
-    int count; bool expectWorker; std::vector<std::atomic<unsigned char> > hits; Per per[MAXSLOT];
-    std::atomic<int> inFinish{0}, finDone{0}, nInit{0}; long total = 0;   // total: plain, protected only by the documented finish() synchronisation
+    int count; bool expectWorker; int straggler = -1; bool slowFinish = false;   // deterministic widening of the two critical windows
+    std::vector<std::atomic<unsigned char> > hits; Per per[MAXSLOT];
+    std::atomic<int> inFinish{0}, finDone{0}, nInit{0}, execDone{0}; long total = 0;   // total: plain, protected only by the documented finish() synchronisation
     PexTask(int n, bool w) : count(n), expectWorker(w), hits(n) { for (auto& h : hits) h.store(0, RLX); }
     void initialize() override {
         Per& p = per[slot()];
@@ -200,9 +215,9 @@ struct PexTask : ParallelExecutor::Task {
         if (p.inits != 1) werr("execute(%d) on a thread whose initialize() has not run", i);
         if (p.fins) werr("execute(%d) after finish() on the same worker", i);
         if (i < 0 || i >= count) { werr("execute(%d) outside 0..%d", i, count - 1); return; }
-        perturb(1, i);
+        perturb(1, i); if (i == straggler) usleep(300);
         if (hits[i].fetch_add(1, RLX) != 0) werr("index %d of %d executed more than once", i, count);
-        p.localSum += i + 1; p.execs++;
+        p.localSum += i + 1; p.execs++; execDone.fetch_add(1, RLX);
     }
     void finish() override {
         Per& p = per[slot()];
@@ -210,15 +225,19 @@ struct PexTask : ParallelExecutor::Task {
         if (p.fins++) werr("finish() called twice on one worker thread for one execute()");
         if (inFinish.exchange(1, RLX) != 0) werr("two finish() calls overlap (documented: all calls to finish are synchronized)");
         perturb(3, tl_slot);
+        if (slowFinish) {   // hold finish() open until the other workers are done executing (bounded: 40 x 50 us), i.e. about to call finish() themselves
+            for (int k = 0; k < 40 && execDone.load(RLX) < count; ++k) usleep(50);
+            usleep(40);
+        }
         long cur = total; perturb(4, tl_slot); total = cur + p.localSum;
         inFinish.store(0, RLX); finDone.fetch_add(1, RLX);
     }
 };
 
 struct Task2D : Parallel2DExecutor::Task {
-    int n; bool expectWorker, enumMode, passCheck; std::vector<std::atomic<unsigned char> > cnt; std::vector<std::atomic<int> > inuse; std::vector<std::atomic<uint64_t> > owner;
+    int n; bool expectWorker, enumMode, passCheck; int stragI = -1, stragJ = -1; bool slowFinish = false; std::vector<std::atomic<unsigned char> > cnt; std::vector<std::atomic<int> > inuse; std::vector<std::atomic<uint64_t> > owner;
     std::vector<long> acc;   // plain data indexed by i and j: the documented use case (TSan checks the promised happens-before edge)
-    Per per[MAXSLOT]; std::atomic<int> inFinish{0}, finDone{0}, nInit{0}; std::atomic<long> conflicts{0}, passConflicts{0}; long total = 0;
+    Per per[MAXSLOT]; std::atomic<int> inFinish{0}, finDone{0}, nInit{0}; std::atomic<long> conflicts{0}, passConflicts{0}, execDone{0}; long total = 0, expectTotal = -1, epoch0 = g_epoch.load(RLX);
     Task2D(int n, bool w, bool e) : n(n), expectWorker(w), enumMode(e), passCheck(!C33_TSAN), cnt((size_t)n * n), inuse(n), owner(n), acc(n, 0) {
         for (auto& c : cnt) c.store(0, RLX); for (auto& c : inuse) c.store(0, RLX); for (auto& c : owner) c.store(0, RLX); }
     void initialize() override {
@@ -236,19 +255,19 @@ struct Task2D : Parallel2DExecutor::Task {
             uint64_t me = ((uint64_t)(g_epoch.load(RLX) + 1) << 8) | (uint64_t)tl_slot;
             uint64_t a = owner[i].exchange(me, RLX), b = i != j ? owner[j].exchange(me, RLX) : me;
             if (((a >> 8) == (me >> 8) && a != me) || ((b >> 8) == (me >> 8) && b != me)) {
-                if (passConflicts.fetch_add(1, RLX) == 0) werr("2D partition: invocation (%d,%d) on worker %d and an invocation on worker %d sharing an index are in the same pass %ld (no happens-before edge between them)", i, j, tl_slot, (int)(((a >> 8) == (me >> 8) && a != me ? a : b) & 255), (long)(me >> 8) - 1);
+                if (passConflicts.fetch_add(1, RLX) == 0) werr("2D partition: invocation (%d,%d) on worker %d and an invocation on worker %d sharing an index are in the same pass %ld (no happens-before edge between them)", i, j, tl_slot, (int)(((a >> 8) == (me >> 8) && a != me ? a : b) & 255), (long)(me >> 8) - 1 - epoch0);
             }
         }
         if (!enumMode) {
             bool c1 = inuse[i].fetch_add(1, RLX) != 0, c2 = i != j && inuse[j].fetch_add(1, RLX) != 0;
             if (c1 || c2) { if (conflicts.fetch_add(1, RLX) == 0) werr("2D execute(%d,%d): another invocation sharing index %d is running at the same time", i, j, c1 ? i : j); }
             long ai = acc[i]; long aj = acc[j];
-            perturb(1, i * 131 + j);
+            perturb(1, i * 131 + j); if (i == stragI && j == stragJ) usleep(300);
             acc[i] = ai + 1; if (i != j) acc[j] = aj + 1;
             inuse[i].fetch_sub(1, RLX); if (i != j) inuse[j].fetch_sub(1, RLX);
         }
         if (cnt[(size_t)i * n + j].fetch_add(1, RLX) != 0) werr("2D pair (%d,%d) executed more than once", i, j);
-        p.execs++; p.localSum += 1;
+        p.execs++; p.localSum += 1; execDone.fetch_add(1, RLX);
     }
     void finish() override {
         Per& p = per[slot()];
@@ -256,6 +275,7 @@ struct Task2D : Parallel2DExecutor::Task {
         if (p.fins++) werr("2D finish() called twice on one worker thread for one execute()");
         if (inFinish.exchange(1, RLX) != 0) werr("two 2D finish() calls overlap (documented: all calls to finish are synchronized)");
         if (!enumMode) perturb(3, tl_slot);
+        if (slowFinish) { for (int k = 0; k < 40 && execDone.load(RLX) < expectTotal; ++k) usleep(50); usleep(40); }
         long cur = total; if (!enumMode) perturb(4, tl_slot); total = cur + p.localSum;
         inFinish.store(0, RLX); finDone.fetch_add(1, RLX);
     }
@@ -291,8 +311,8 @@ struct QShared {
     QShared(int n) : n(n), cap(0), started(n), done(n), deleted(n), payload(n, 0) { for (int i = 0; i < n; ++i) { started[i].store(0, RLX); done[i].store(0, RLX); deleted[i].store(0, RLX); } }
 };
 struct QTask : ParallelWorkQueue::Task {
-    QShared& s; int id;
-    QTask(QShared& s, int id) : s(s), id(id) {}
+    QShared& s; int id; bool slow;
+    QTask(QShared& s, int id, bool slow) : s(s), id(id), slow(slow) {}
     ~QTask() override {
         if (s.done[id].load(RLX) != 1) werr("queue task %d deleted without having been executed", id);
         if (s.deleted[id].fetch_add(1, RLX) != 0) werr("queue task %d deleted twice", id);
@@ -300,7 +320,7 @@ struct QTask : ParallelWorkQueue::Task {
     void execute() override {
         s.nStarted.fetch_add(1, RLX);
         if (s.started[id].fetch_add(1, RLX) != 0) werr("queue task %d executed more than once", id);
-        perturb(1, id); long v = s.payload[id]; perturb(2, id); s.payload[id] = v + 7L * id + 1;
+        perturb(1, id); long v = s.payload[id]; perturb(2, id); if (slow) usleep(200); s.payload[id] = v + 7L * id + 1;
         s.done[id].fetch_add(1, RLX);
     }
 };
@@ -371,9 +391,11 @@ void runPEX(const pbt::Tape& t, pbt::Ctx& ctx) {
     }
     if (!ctx.check(ex->getMaxThreads() == T, "getMaxThreads()=" + std::to_string(ex->getMaxThreads()) + " expected " + std::to_string(T))) { }
     bool big = false;
+    std::vector<std::unique_ptr<PexTask> > keep;   // tasks outlive the executor: a library that returns early from execute() must not turn into a use-after-free in the harness
     for (size_t k = 0; k < counts.size() && !ctx.failed; ++k) {
         int n = counts[k]; if (n > T) big = true;
-        PexTask task(n, T >= 2); g_sched.stride = std::max(1, n / 96);
+        keep.emplace_back(new PexTask(n, T >= 2)); PexTask& task = *keep.back(); g_sched.stride = std::max(1, n / 96);
+        { uint32_t h = mix(g_sched.seed, 77, (uint32_t)k); if (n > 0) task.straggler = (int)((h >> 2) % (uint32_t)n); task.slowFinish = T >= 2 && ((h >> 20) & 7) != 0; }
         perturb(8, (int)k);
         { LibCall lc("ParallelExecutor::execute"); ex->execute(task, n); }
         if (g_errFlag.load(RLX)) break;
@@ -421,9 +443,12 @@ void runP2D(const pbt::Tape& t, pbt::Ctx& ctx) {
     {
         Parallel2DExecutor* p2 = supplied ? new Parallel2DExecutor(grid, *sup) : new Parallel2DExecutor(grid, procs);
         if (supplied) ctx.check(&p2->getExecutor() == sup, "getExecutor() does not return the supplied executor");
+        std::vector<std::unique_ptr<Task2D> > keep;
         for (size_t k = 0; k < rts.size() && !ctx.failed; ++k) {
             ctx.label(std::string("range:") + rtName(rts[k]));
-            Task2D task(grid, false, false); g_sched.stride = std::max(1, grid * grid / 96);
+            keep.emplace_back(new Task2D(grid, false, false)); Task2D& task = *keep.back(); g_sched.stride = std::max(1, grid * grid / 96);
+            { uint32_t h = mix(g_sched.seed, 78, (uint32_t)k); if (grid > 0) { task.stragI = (int)((h >> 2) % (uint32_t)grid); task.stragJ = (int)((h >> 10) % (uint32_t)grid); if (!inRange(rts[k], task.stragI, task.stragJ)) std::swap(task.stragI, task.stragJ); }
+              task.slowFinish = T >= 2 && ((h >> 20) & 7) != 0; task.expectTotal = rts[k] == 0 ? (long)grid * grid : rts[k] == 1 ? (long)grid * (grid - 1) / 2 : (long)grid * (grid + 1) / 2; }
             perturb(8, (int)k);
             { LibCall lc("Parallel2DExecutor::execute"); p2->execute(task, rtOf(rts[k])); }
             if (g_errFlag.load(RLX)) break;
@@ -465,7 +490,9 @@ void runPWQ(const pbt::Tape& t, pbt::Ctx& ctx) {
         };
         for (size_t k = 0; k < ops.size() && !ctx.failed; ++k) {
             for (int a = 0; a < ops[k].add && !ctx.failed; ++a) {
-                QTask* task = new QTask(sh, added);
+                bool lastBatch = k + 1 == ops.size();   // slow tasks: the last one before a flush, and the tail of the final batch (so that work is still queued / running at flush and destruction)
+                bool slow = (a + 1 == ops[k].add && (ops[k].flush || lastBatch)) || (lastBatch && ops[k].add - a <= T + 2) || (mix(g_sched.seed, 79, (uint32_t)added) % 16 == 0);
+                QTask* task = new QTask(sh, added, slow);
                 perturb(8, added);
                 { LibCall lc("ParallelWorkQueue::addTask"); q->addTask(task); }
                 ++added;
@@ -510,7 +537,7 @@ void enumerate2D(pbt::Ctx& ctx, bool complete) {
     {
         ++g_caseId; g_nslots.store(0, RLX); g_active.store(true, RLX);
         ParallelExecutor ex(3); long e0 = g_epoch.load(RLX);
-        for (int k = 0; k < 4; ++k) { PexTask tk(7, true); ex.execute(tk, 7); }
+        for (int k = 0; k < 4; ++k) { PexTask tk(7, true); LibCall lc("ParallelExecutor::execute (self-test)"); ex.execute(tk, 7); }
         long e1 = g_epoch.load(RLX);
         if (g_errFlag.load(RLX)) { g_active.store(false, RLX); ctx.fail(std::string("ParallelExecutor(3), 4 x execute of 7 tasks: ") + g_errMsg); return; }
         if (e1 - e0 != 4) { g_active.store(false, RLX); ctx.fail("harness self-test: pass observation through pthread_cond_broadcast saw " + std::to_string(e1 - e0) + " broadcasts for 4 execute() calls (interposition inactive?)"); return; }
@@ -549,17 +576,30 @@ void childMain(const char* what) {
     if (!strcmp(what, "pexec")) { for (int r = 0; r < 40; ++r) { ParallelExecutor ex(4); CT t; ex.execute(t, 16); ex.execute(t, 3); } }
     else if (!strcmp(what, "pwq")) { std::atomic<int> n{0}; for (int r = 0; r < 40; ++r) { ParallelWorkQueue q(4, 3); for (int k = 0; k < 25; ++k) q.addTask(new QT(n)); q.flush(); } }
 }
+#endif
+// The two race findings are only observable under ThreadSanitizer.  The engine runs directed cases in shard 0 of the main
+// tree only, so the main-tree harness runs the reproducer through its tsan twin (same path with /main/ -> /tsan/); the tsan
+// build runs itself.  The child exits 66 on the first ThreadSanitizer report.
+std::string tsanTwin() {
+    char buf[4096]; ssize_t n = readlink("/proc/self/exe", buf, sizeof buf - 1); if (n <= 0) return ""; buf[n] = 0; std::string p = buf;
+#if !C33_TSAN
+    size_t k = p.rfind("/main/"); if (k == std::string::npos) return ""; p.replace(k, 6, "/tsan/");
+#endif
+    return access(p.c_str(), X_OK) == 0 ? p : "";
+}
 void runChild(pbt::Ctx& ctx, const char* what, const char* describe) {
+    std::string twin = tsanTwin();
+    if (twin.empty()) { ctx.desc << describe << ": ThreadSanitizer build of this harness not found next to the main build; reproducer skipped\n"; return; }
     char log[128]; snprintf(log, sizeof log, "/tmp/verif-C33-%d-child-%s.log", (int)getpid(), what);
     std::vector<std::string> envs; bool haveT = false;
     for (char** e = environ; *e; ++e) { std::string s = *e; if (s.rfind("C33_CHILD=", 0) == 0) continue; if (s.rfind("TSAN_OPTIONS=", 0) == 0) { haveT = true; if (s.find("halt_on_error") == std::string::npos) s += ":halt_on_error=1:exitcode=66"; } envs.push_back(s); }
     if (!haveT) envs.push_back("TSAN_OPTIONS=halt_on_error=1:exitcode=66");
     envs.push_back(std::string("C33_CHILD=") + what);
     std::vector<char*> envp; for (auto& s : envs) envp.push_back(&s[0]); envp.push_back(nullptr);
-    char exe[] = "/proc/self/exe"; char a0[] = "C33-child"; char* argv[] = {a0, nullptr};
+    char a0[] = "C33-child"; char* argv[] = {a0, nullptr};
     posix_spawn_file_actions_t fa; posix_spawn_file_actions_init(&fa);
     posix_spawn_file_actions_addopen(&fa, 2, log, O_WRONLY | O_CREAT | O_TRUNC, 0644); posix_spawn_file_actions_adddup2(&fa, 2, 1);
-    pid_t pid; int rc = posix_spawn(&pid, exe, &fa, nullptr, argv, envp.data()); posix_spawn_file_actions_destroy(&fa);
+    pid_t pid; int rc = posix_spawn(&pid, twin.c_str(), &fa, nullptr, argv, envp.data()); posix_spawn_file_actions_destroy(&fa);
     if (rc != 0) { ctx.desc << "could not spawn the child process (" << strerror(rc) << ")\n"; return; }
     int st = 0; while (waitpid(pid, &st, 0) < 0 && errno == EINTR) {}
     std::string head; { std::ifstream in(log); std::string l; int n = 0; bool on = false; while (std::getline(in, l) && n < 14) { if (l.find("ThreadSanitizer") != std::string::npos) on = true; if (on && !l.empty()) { head += l.substr(0, 160) + " | "; ++n; } } }
@@ -568,6 +608,7 @@ void runChild(pbt::Ctx& ctx, const char* what, const char* describe) {
     if (WIFEXITED(st) && WEXITSTATUS(st) == 0) return;
     ctx.fail(std::string(describe) + ": ThreadSanitizer report / abnormal exit (status " + std::to_string(WIFEXITED(st) ? WEXITSTATUS(st) : -WTERMSIG(st)) + "): " + head.substr(0, 1200));
 }
+#if C33_TSAN
 void onTsanDeath() {
     const char m[] = "\nC33: ThreadSanitizer (or a fatal error) stopped the process while this tape was running:\n"; ssize_t r = write(2, m, sizeof m - 1); (void)r;
     r = write(2, pbt::detail::curBuf(), pbt::detail::curLen()); (void)r;
@@ -580,7 +621,7 @@ pbt::Config config() {
     __sanitizer_set_death_callback(onTsanDeath);
 #else
     resolveReal(); tl_isMain = true;
-    static bool started = false; if (!started) { started = true; g_baseTasks = countTasks(); std::thread(monitorBody).detach(); }
+    static bool started = false; if (!started) { started = true; g_baseTasks = countTasks(true); std::thread(monitorBody).detach(); }
 #endif
     {   // Worker stacks: glibc caches at most 40 MB of thread stacks, so with the default 8 MB stacks every executor with more than
         // 5 threads pays mmap/mprotect/munmap per thread (measured here: 2-10 ms per thread, 0.3 ms with 512 KB stacks).
@@ -588,11 +629,11 @@ pbt::Config config() {
         pthread_attr_t a; pthread_attr_init(&a); pthread_attr_setstacksize(&a, (C33_TSAN ? 1024 : 512) * 1024); pthread_setattr_default_np(&a); pthread_attr_destroy(&a); }
     pbt::Config c; c.prop = "C33"; c.K = 12; c.minUnits = 0; c.caseTimeoutSecs = 60;
 #if C33_TSAN
-    c.quick = {60, 400, 24, 25}; c.thorough = {400, 6000, 30, 240};
+    c.quick = {40, 400, 24, 20}; c.thorough = {300, 6000, 30, 240};
 #else
-    c.quick = {500, 4000, 24, 20}; c.thorough = {4000, 60000, 30, 240};
+    c.quick = {300, 4000, 24, 20}; c.thorough = {2000, 60000, 30, 240};
 #endif
-    c.maxShrinkExecs = 3000; c.maxShrinkSecs = 60;
+    c.maxShrinkExecs = 600; c.maxShrinkSecs = 25;
     c.rule = "rapidcheck tape -> one of {ParallelExecutor: threads 1..32 (incl. clone/default ctor), 1..5 execute() calls of 0..10000 tasks on one executor, destruction; "
              "Parallel2DExecutor: grid 0..128, processors 1..32, own or supplied executor, 1..3 execute() calls over the three range types; "
              "ParallelWorkQueue: queue size 1..64, threads 1..16, one producer adding 0..2000 tasks in batches with generated flush points, final flush or destruction with pending work}; "
@@ -605,10 +646,9 @@ pbt::Config config() {
 #if !C33_TSAN
     if (currentTier() == "thorough" || getenv("C33_ENUM_COMPLETE")) c.directed.push_back({"enum2d-partition-complete", "", [](pbt::Ctx& ctx) { enumerate2D(ctx, true); }});
     else if (!getenv("C33_ENUM_SKIP")) c.directed.push_back({"enum2d-partition-sublattice", "", [](pbt::Ctx& ctx) { enumerate2D(ctx, false); }});
-#else
+#endif
     c.directed.push_back({"tsan-pexec-destructor-vs-worker-loop", "pexec-finished-race", [](pbt::Ctx& ctx) { runChild(ctx, "pexec", "40 x {ParallelExecutor(4); execute 16 and 3 tasks; destroy} under ThreadSanitizer"); }});
     c.directed.push_back({"tsan-pwq-worker-loop-condition", "pwq-unlocked-loop-cond", [](pbt::Ctx& ctx) { runChild(ctx, "pwq", "40 x {ParallelWorkQueue(4,3); add 25 tasks; flush; destroy} under ThreadSanitizer"); }});
-#endif
     c.requiredLabels = {"kind:ParallelExecutor", "kind:Parallel2DExecutor", "kind:ParallelWorkQueue", "threads:17-32", "pex:repeated-execute", "2d:supplied-executor", "range:HalfMatrix", "range:HalfPlusDiagonal", "range:FullMatrix",
                         "pwq:destroy-with-pending", "pwq:flush-between-adds", "injected-delay"};
     return c;
